@@ -71,6 +71,19 @@ AL_SUMMER_FUTURE = 15717603
 AL_SUMMER_PAST = -15904796
 
 
+# align_to = datetime(1, 1, 1, tzinfo=utc), two thousand years before the epoch: its distance does not fit the spec's
+# integers, and only its phase modulo the period matters there, so the spec gets a surrogate tick value with the same
+# phase (computed here with exact integer arithmetic) and the harness passes the real datetime (tz name "year1")
+YEAR1 = "year1"
+
+
+def _year1_surrogate(P: int) -> int:
+    from datetime import datetime, timezone
+
+    secs = (datetime(1, 1, 1, tzinfo=timezone.utc) - datetime(2024, 1, 1, tzinfo=timezone.utc)) // timedelta(seconds=1)
+    return secs % P - 1000 * P
+
+
 def _tzof(m: dict[int, str]):
     from .tlc import Raw
 
@@ -88,8 +101,8 @@ C07_SCOPES = {
             limit=3600,
         ),
         grid=dict(
-            consts=dict(P=7, CreateSet={14, 17}, OffSet={0, 300, 999}, AlignSet={NONE, 0, AL_SUMMER_FUTURE, AL_SUMMER_PAST, 35}, NS=1, LatSet={0}, FailSet=set(), MaxFail=0, MaxLate=7, Horizon=22),
-            tz={0: "utc", AL_SUMMER_FUTURE: BERLIN, AL_SUMMER_PAST: BERLIN, 35: "-03:30"},
+            consts=dict(P=7, CreateSet={14, 17}, OffSet={0, 300, 999}, AlignSet={NONE, 0, AL_SUMMER_FUTURE, AL_SUMMER_PAST, 35, _year1_surrogate(7)}, NS=1, LatSet={0}, FailSet=set(), MaxFail=0, MaxLate=7, Horizon=22),
+            tz={0: "utc", AL_SUMMER_FUTURE: BERLIN, AL_SUMMER_PAST: BERLIN, 35: "-03:30", _year1_surrogate(7): YEAR1},
             limit=1500,
         ),
     ),
@@ -100,8 +113,8 @@ C07_SCOPES = {
             limit=100000,
         ),
         grid=dict(
-            consts=dict(P=7, CreateSet=set(range(14, 21)), OffSet={0, 1, 300, 999, 500000}, AlignSet={NONE, 0, AL_SUMMER_FUTURE, AL_SUMMER_PAST, AL_SUMMER_FUTURE + 2, 35}, NS=2, LatSet={0, 8}, FailSet=set(), MaxFail=0, MaxLate=7, Horizon=29),
-            tz={0: "utc", AL_SUMMER_FUTURE: BERLIN, AL_SUMMER_PAST: BERLIN, AL_SUMMER_FUTURE + 2: "America/New_York", 35: "-03:30"},
+            consts=dict(P=7, CreateSet=set(range(14, 21)), OffSet={0, 1, 300, 999, 500000}, AlignSet={NONE, 0, AL_SUMMER_FUTURE, AL_SUMMER_PAST, AL_SUMMER_FUTURE + 2, 35, _year1_surrogate(7)}, NS=2, LatSet={0, 8}, FailSet=set(), MaxFail=0, MaxLate=7, Horizon=29),
+            tz={0: "utc", AL_SUMMER_FUTURE: BERLIN, AL_SUMMER_PAST: BERLIN, AL_SUMMER_FUTURE + 2: "America/New_York", 35: "-03:30", _year1_surrogate(7): YEAR1},
             limit=60000,
         ),
     ),
@@ -122,7 +135,7 @@ def _tzinfo(name: str):
     from datetime import timezone
     from zoneinfo import ZoneInfo
 
-    if name == "utc":
+    if name in ("utc", YEAR1):
         return timezone.utc
     if name[0] in "+-":
         hh, mm = name[1:].split(":")
@@ -216,6 +229,11 @@ def replay_timeline(case: dict, cfg: dict) -> dict:
                     kw["align_to"] = None
                 elif s["align"] != 0 or s["tz"] != "utc" or P != 4:  # else: the default UNIX_EPOCH (EPOCH is a multiple of 4 s after it)
                     kw["align_to"] = (EPOCH + timedelta(seconds=s["align"] * TICK_S)).astimezone(_tzinfo(s["tz"]))
+                if s["tz"] == YEAR1:  # the spec's value is a surrogate with the same phase modulo the period
+                    from datetime import datetime
+
+                    kw["align_to"] = datetime(1, 1, 1, tzinfo=_tzinfo("utc"))
+                    assert (kw["align_to"] - EPOCH) // timedelta(seconds=1) % P == s["align"] % P
                 res = Resampler(ResamplerConfig(resampling_period=timedelta(seconds=P * TICK_S), **kw))
                 add(1)
                 task = loop.create_task(res.resample())
@@ -319,7 +337,7 @@ def _c07_stage(rep: Report, name: str, sc: dict, work: Path) -> None:
                 "unaligned_creation", "align_future", "align_none", "ticks_total")
     else:
         keys = ("align_to_in_dst_zone_with_other_utc_offset_than_at_creation", "align_to_with_fixed_nonzero_offset", "align_to_utc", "align_none",
-                "created_under_1ms_after_grid_point", "created_exactly_on_grid_point", "unaligned_creation", "align_future", "late_timer", "ticks_total")
+                "align_to_more_than_1000_years_away_with_us_creation_offset", "created_under_1ms_after_grid_point", "created_exactly_on_grid_point", "unaligned_creation", "align_future", "late_timer", "ticks_total")
     ex = dict.fromkeys(keys, 0)
 
     def offset_differs(al: int, tz: str, c0: int) -> bool:
@@ -357,9 +375,10 @@ def _c07_stage(rep: Report, name: str, sc: dict, work: Path) -> None:
         else:
             # only behaviours in which at least one tick was handed out say anything about the grid
             has = nticks > 0
-            ex["align_to_in_dst_zone_with_other_utc_offset_than_at_creation"] += has and al != NONE and tz not in ("utc",) and tz[0] not in "+-" and offset_differs(al, tz, c0)
+            ex["align_to_in_dst_zone_with_other_utc_offset_than_at_creation"] += has and al != NONE and tz not in ("utc", YEAR1) and tz[0] not in "+-" and offset_differs(al, tz, c0)
             ex["align_to_with_fixed_nonzero_offset"] += has and al != NONE and tz[0] in "+-"
             ex["align_to_utc"] += has and al != NONE and tz == "utc"
+            ex["align_to_more_than_1000_years_away_with_us_creation_offset"] += has and tz == YEAR1 and off % 1_000_000 != 0
             ex["created_under_1ms_after_grid_point"] += has and al != NONE and (c0 - al) % P == 0 and 0 < off < 1000
             ex["created_exactly_on_grid_point"] += has and al != NONE and (c0 - al) % P == 0 and off == 0
     for k, v in ex.items():
